@@ -78,7 +78,10 @@ TWTop == /\ IsEvent("WTop") /\ WTop(Ev.w)
          /\ IF Ev.a = 3 THEN t'[Ev.w].pc = "finthr" /\ t'[Ev.w].result = "STOP"
             ELSE t'[Ev.w].snapState = StateName(Ev.a) /\ t'[Ev.w].pc # "finthr"
 TWWake == IsEvent("WWake") /\ t[Ev.w].pc = "park_top" /\ WWake(Ev.w)
-TWEncInit == IsEvent("WEncInit") /\ WEncInit(Ev.w, FALSE, FALSE)
+\* a = delta distance of the Block's chain (0 = no delta filter in use): the driver uses dist = 1 + chain version
+TWEncInit == /\ IsEvent("WEncInit") /\ WEncInit(Ev.w, FALSE, FALSE)
+             /\ (Ev.a # 0 => Ev.a = 1 + m.blkChain[t[Ev.w].blk] - m.chainBase)
+TUpdate == IsEvent("Update") /\ FiltersUpdate /\ m'.lastUpdateRet = RetName(Ev.a)
 TWError == IsEvent("WError") /\ WEncInit(Ev.w, TRUE, FALSE) /\ Ev.nsig >= 1
 TWEncSyncBegin == /\ IsEvent("WEncSyncBegin") /\ t[Ev.w].pc = "encsync" /\ t[Ev.w].inPos = Ev.a
                   /\ t' = [t EXCEPT ![Ev.w].progressIn = Ev.a] /\ UNCHANGED <<m, c>>
@@ -105,7 +108,7 @@ TWFinCoder == /\ IsEvent("WFinCoder") /\ WFinCoderTo(Ev.w, Ev.b)
               /\ Ev.nsig >= 1
 
 Logged == TReset \/ TCall \/ TRet \/ TProgress \/ TBlkRead \/ TGtPop \/ TCreate \/ TGtStart \/ TCopy \/ TPublish \/ TBlkErr
-          \/ TAppReinit \/ TRStop \/ TRStopDone \/ TReinited \/ TWaitPark \/ TWaitGo \/ TWaitTimedOutEnd \/ TWaitWake \/ TWaitTimeout \/ TStop \/ TStopDone
+          \/ TUpdate \/ TAppReinit \/ TRStop \/ TRStopDone \/ TReinited \/ TWaitPark \/ TWaitGo \/ TWaitTimedOutEnd \/ TWaitWake \/ TWaitTimeout \/ TStop \/ TStopDone
           \/ TEndSignal \/ TEndJoin \/ TEndDone \/ TAppEnd \/ TFreed
           \/ TWTop \/ TWWake \/ TWEncInit \/ TWError \/ TWEncSyncBegin \/ TWEncSync \/ TWEncCode \/ TWEncWaitFin
           \/ TWFinThr \/ TWFinCoder
